@@ -452,6 +452,10 @@ pub struct SimRing {
     /// SQPOLL: the kernel thread went idle (IORING_SQ_NEED_WAKEUP is set in the SQ flags word);
     /// it only runs again when an `io_uring_enter` carries IORING_ENTER_SQ_WAKEUP.
     pub sqpoll_asleep: bool,
+    /// IORING_SETUP_SINGLE_ISSUER is enforced (opt-in, `ENFORCE_SINGLE_ISSUER`): the first thread to
+    /// enter becomes the submitter, `io_uring_enter` from any other thread fails with EEXIST.
+    pub enforce_single: bool,
+    pub submitter: Option<i64>,
 }
 
 unsafe impl Send for SimRing {}
@@ -551,8 +555,39 @@ pub fn drain_events() -> Vec<KEv> {
 /// next `io_uring_setup`, which would replace the entry). Call before building an additional ring
 /// whose descriptor has to be told apart from the existing ones.
 pub fn purge_closed() {
+    purge_closed_except(-1);
+}
+
+/// Occupy descriptor number `n` (with /dev/null) if it is free, so that the next `io_uring_setup` is
+/// not handed the number of a ring a10 has closed but a component still inspects; returns whether it
+/// did (then `release_fd(n)` frees it again).
+pub fn hold_fd(n: i32) -> bool {
+    unsafe {
+        if raw_syscall(libc::SYS_fcntl, n as i64, libc::F_GETFD as i64, 0, 0, 0, 0) >= 0 {
+            return false;
+        }
+        let path = b"/dev/null\0";
+        let fd = raw_syscall(libc::SYS_openat, libc::AT_FDCWD as i64, path.as_ptr() as i64, libc::O_RDONLY as i64, 0, 0, 0);
+        if fd < 0 {
+            return false;
+        }
+        if fd != n as i64 {
+            raw_syscall(libc::SYS_dup3, fd, n as i64, 0, 0, 0, 0);
+            raw_syscall(libc::SYS_close, fd, 0, 0, 0, 0, 0);
+        }
+        true
+    }
+}
+
+pub fn release_fd(n: i32) {
+    unsafe { raw_syscall(libc::SYS_close, n as i64, 0, 0, 0, 0, 0) };
+}
+
+/// As `purge_closed`, but the ring with descriptor `keep` stays (a component's own ring, which it
+/// still inspects after a10 closed it).
+pub fn purge_closed_except(keep: i32) {
     with_sim(|sim| {
-        let dead: Vec<i32> = sim.rings.iter().filter(|(_, r)| r.closed).map(|(k, _)| *k).collect();
+        let dead: Vec<i32> = sim.rings.iter().filter(|(k, r)| r.closed && **k != keep).map(|(k, _)| *k).collect();
         for fd in dead {
             if let Some(r) = sim.rings.remove(&fd) {
                 r.destroy();
@@ -1191,6 +1226,8 @@ fn sim_setup(entries: u32, p: *mut Params) -> i64 {
         next_seq: 1,
         enters: 0,
         sqpoll_asleep: false,
+        enforce_single: ENFORCE_SINGLE_ISSUER.load(Ordering::SeqCst),
+        submitter: None,
     };
     with_sim(|s| {
         s.rings.insert(fd, ring);
@@ -1247,6 +1284,9 @@ pub const SOCKET_OP_GETSOCKNAME: u32 = 5;
 
 /// When set, a CLOSE submission made by a `Close` future (`user_data` > 3) is an
 /// ordinary in-flight submission that completes when the script posts for it
+/// Rings created while this is set enforce IORING_SETUP_SINGLE_ISSUER (see `SimRing::enforce_single`).
+pub static ENFORCE_SINGLE_ISSUER: AtomicBool = AtomicBool::new(false);
+
 /// (the `life` component); closes made by dropping an `AsyncFd` stay synchronous.
 pub static DEFER_CLOSE_OPS: AtomicBool = AtomicBool::new(false);
 
@@ -1958,6 +1998,14 @@ fn sim_enter(fd: i32, to_submit: u32, min_complete: u32, flags: u32, arg: usize)
             }
             if !ring.enabled {
                 break 'ret -(libc::EBADFD as i64);
+            }
+            if ring.enforce_single && ring.flags & SETUP_SINGLE_ISSUER != 0 {
+                let tid = unsafe { raw_syscall(libc::SYS_gettid, 0, 0, 0, 0, 0, 0) };
+                match ring.submitter {
+                    None => ring.submitter = Some(tid),
+                    Some(t) if t != tid => break 'ret -(libc::EEXIST as i64),
+                    Some(_) => {}
+                }
             }
             ring.scribble_free_slots();
             let mut n = to_submit.min(ring.sq_pending());
